@@ -22,6 +22,7 @@ import (
 	"github.com/LemoFoundationLtd/lemochain-core/store/leveldb"
 
 	"github.com/LemoFoundationLtd/lemochain-core/common"
+	"github.com/LemoFoundationLtd/lemochain-core/common/crypto"
 	"github.com/LemoFoundationLtd/lemochain-core/store"
 )
 
@@ -107,6 +108,11 @@ func VerifyProof(rootHash common.Hash, key []byte, proofDb store.DatabaseReader)
 		buf, _ := proofDb.Get(leveldb.ItemFlagTrie, wantHash[:])
 		if buf == nil {
 			return nil, fmt.Errorf("proof node %d (hash %064x) missing", i, wantHash), i
+		}
+		// The reader is not trusted to be content-addressed: a node only proves
+		// something if it is the preimage of the hash its parent (or the root) names.
+		if crypto.Keccak256Hash(buf) != wantHash {
+			return nil, fmt.Errorf("proof node %d does not hash to %064x", i, wantHash), i
 		}
 		n, err := decodeNode(wantHash[:], buf, 0)
 		if err != nil {
